@@ -19,6 +19,7 @@ RULE = (
     "Each case: writer bytes == independent DER encoder, reader value == original, reader leaves exactly the suffix. "
     "Every enumerated value is distinct by construction; all are non-trivial (each executes writer and reader)."
     ' Also every operation sequence of length <= 6 (thorough 7) on ASN1Writer objects over {open SEQUENCE / SET under any open writer (<= 3 children), write the next integer to any open writer, close any open child}, compared with a reference model of the writer (a child becomes one TLV of its parent at the moment it is closed).'
+    ' Also octet strings whose content is itself DER under 7 kinds of tag (primitive / constructed, universal / context / application).'
 )
 ASSUME = ["ref/der.py is a correct strict DER codec (self-checked on X.690 worked examples and the 17 Windows blobs)"]
 BOUND = {
